@@ -5,8 +5,8 @@ from harness.core import tb
 from harness.gen import systems
 from harness.props import _shared, c03
 
-PROOF_MODULE = ["OdeVerif.Proofs.C02", "OdeVerif.Proofs.C03", "OdeVerif.Proofs.C04b", "OdeVerif.Proofs.RefineGraph", "OdeVerif.Proofs.PipelineGraph", "OdeVerif.Proofs.RefineDemote", "OdeVerif.Proofs.RefineSplit"]
-GENERATED = ['PyGraph', 'PyDemote', 'PySplit']
+PROOF_MODULE = ["OdeVerif.Proofs.C02", "OdeVerif.Proofs.C03", "OdeVerif.Proofs.C04b", "OdeVerif.Proofs.RefineGraph", "OdeVerif.Proofs.PipelineGraph", "OdeVerif.Proofs.RefineDemote", "OdeVerif.Proofs.RefineSplit", "OdeVerif.Proofs.RefineShapesPass"]
+GENERATED = ['PyGraph', 'PyDemote', 'PySplit', "PyShapesPass"]
 THEOREMS = ["OdeVerif.C02.classify_complete_lin", "OdeVerif.C02.classify_complete_const", "OdeVerif.C02.canonical_linear_no_nonlin",
             "OdeVerif.C02.parameterSymbols_spec", "OdeVerif.C02.analytic_sound_coeffs",
             "OdeVerif.C03.tractable_recognised", "OdeVerif.C03.propagate_greatest", "OdeVerif.C03.verdict_perm_invariant",
@@ -14,7 +14,8 @@ THEOREMS = ["OdeVerif.C02.classify_complete_lin", "OdeVerif.C02.classify_complet
             "OdeVerif.Refine.propagate_refines", "OdeVerif.Refine.verdict_refines",
             "OdeVerif.PipelineSpec.collect_sound", "OdeVerif.PipelineSpec.analyse_spelling_invariant",
             "OdeVerif.Refine.demote_eligible", "OdeVerif.Refine.findAnalytic_refines",
-            "OdeVerif.Refine.splitLinInhomNonlin_refines", "OdeVerif.Refine.splitLinInhomNonlin_lin_index"]
+            "OdeVerif.Refine.splitLinInhomNonlin_refines", "OdeVerif.Refine.splitLinInhomNonlin_lin_index",
+            "OdeVerif.Refine.fromJsonToShapes_keys", "OdeVerif.Refine.fromJsonToShapes_var_not_param", "OdeVerif.Refine.fromJsonToShapes_shapes"]
 LEVEL = "proof"
 STYLES = ["expanded", "factored", "nested", "floats", "shuffled", "expanded"]
 
